@@ -5,7 +5,7 @@ CONSTANTS
   Creds = {"right", "wrongPw", "otherUser", "malformed", "empty"}
   BindRes = {"ra", "rv"}
   Kinds = {"message", "presence", "iq"}
-  Froms = {"absent", "own", "ownBare", "victim", "other"}
+  Froms = {"absent", "own", "ownBare", "victim", "other", "ownOtherRes", "ownSibling", "ownCase", "ownSlash", "ownPrefix", "ownDomain", "ownLookalike"}
   Tos = {"victimBare", "victimFull", "domain", "absent"}
   Stanzas <- AllStanzas
   MaxPending = 2
